@@ -40,10 +40,19 @@ func (p *printer) printNode(node interface{}) error {
 
 		case *ast.GenDecl:
 			p.setComment(d.Doc)
-			assert(len(d.Specs) == 1)
+			if len(d.Specs) != 1 {
+				p.localDeclGroup(d)
+				break
+			}
 			if s, ok := d.Specs[0].(*ast.ValueSpec); ok {
-				assert(d.Tok == token.VAR)
-				p.print(d.Pos(), token.Zh_设定, token.K_点)
+				switch d.Tok {
+				case token.CONST, token.Zh_常量:
+					// a constant declared inside a function body
+					p.print(d.Pos(), token.Zh_常量, token.K_点)
+				default:
+					assert(d.Tok == token.VAR)
+					p.print(d.Pos(), token.Zh_设定, token.K_点)
+				}
 				p.spec_ValueSpec(s, 1, true)
 			} else {
 				panic("unreachable")
